@@ -146,6 +146,9 @@ def tasks(tier, seed):
         for first in range(len(EVENTS)):
             ts.append({"chatty": chatty, "tmo": tmo, "first": first, "depth": depth,
                        "name": "%s/t%s/%s" % ("chatty" if chatty else "quiet", tmo, EVENTS[first])})
+    # the same machine on a connection without locks (enable_multithread=False)
+    for first in range(len(EVENTS)):
+        ts.append({"chatty": False, "tmo": 5, "first": first, "depth": depth, "nomt": True, "name": "quiet/t5/nomt/%s" % EVENTS[first]})
     return ts
 
 
@@ -170,7 +173,7 @@ class Harness:
     def run(self, ch, clock):
         d = self.d
         sock = ClockSock(clock, d["chatty"])
-        ws = env.make_ws(sock)
+        ws = env.make_ws(sock, **({"enable_multithread": False} if d.get("nomt") else {}))
         ws.settimeout(d.get("tmo", 5))
         ref = {"state": "OPEN", "own": 0, "peer_close": False, "peer_eof": False, "srv_close_sent": False, "reset": False}
         hist = []
